@@ -1231,6 +1231,9 @@ enum cc_stat cc_slist_iter_add(CC_SListIter *iter, void *element)
     if (iter->index == iter->list->size)
         iter->list->tail = new_node;
 
+    iter->prev    = iter->current;
+    iter->current = new_node;
+
     iter->index++;
     iter->list->size++;
     return CC_OK;
@@ -1409,6 +1412,11 @@ enum cc_stat cc_slist_zip_iter_add(CC_SListZipIter *iter, void *e1, void *e2)
 
     if (iter->index == iter->l2->size)
         iter->l2->tail = new_node2;
+
+    iter->l1_prev    = iter->l1_current;
+    iter->l2_prev    = iter->l2_current;
+    iter->l1_current = new_node1;
+    iter->l2_current = new_node2;
 
     iter->index++;
     iter->l1->size++;
